@@ -8,8 +8,14 @@
 (***************************************************************************)
 EXTENDS Decomp, Rat
 
-SegLen(pos, a, b) == AbsI(pos[a + 1][1] - pos[b + 1][1]) + AbsI(pos[a + 1][2] - pos[b + 1][2]) + AbsI(pos[a + 1][3] - pos[b + 1][3])     \* axis-parallel
-AxisOK(P, pos) == \A i \in Nodes(P) \ {0} : Cardinality({ k \in 1 .. 3 : pos[i + 1][k] # pos[Par(P, i) + 1][k] }) <= 1
+\* segment lengths are integers: axis-parallel steps, or steps like <<3, 4, 0>> whose squared length is a perfect square (the straight edges of a
+\* branch tree made from a tree with 3-4-5 bends)
+D2s(pos, a, b) == (pos[a + 1][1] - pos[b + 1][1]) * (pos[a + 1][1] - pos[b + 1][1]) + (pos[a + 1][2] - pos[b + 1][2]) * (pos[a + 1][2] - pos[b + 1][2])
+                  + (pos[a + 1][3] - pos[b + 1][3]) * (pos[a + 1][3] - pos[b + 1][3])
+RECURSIVE NewtonR(_, _)
+NewtonR(n, x) == LET y == (x + n \div x) \div 2 IN IF y >= x THEN x ELSE NewtonR(n, y)
+SegLen(pos, a, b) == LET n == D2s(pos, a, b) IN IF n = 0 THEN 0 ELSE NewtonR(n, n)
+AxisOK(P, pos) == \A i \in Nodes(P) \ {0} : LET l == SegLen(pos, i, Par(P, i)) IN l * l = D2s(pos, i, Par(P, i))
 \* cumulative arc length along the node sequence b
 RECURSIVE Cum(_, _, _)
 Cum(pos, b, k) == IF k = 1 THEN 0 ELSE Cum(pos, b, k - 1) + SegLen(pos, b[k - 1], b[k])
